@@ -35,6 +35,7 @@ def run(ctx):
     ctx.tlc_mc(fam, "Envelope", "Envelope_MC_bug2.cfg", workers=1, expect_violation="SingleStack")
     if ctx.thorough:
         ctx.tlc_mc(fam, "Envelope", "Envelope_MC_big.cfg", workers=16, timeout=3000, label="framing, big")
+        ctx.tlc_mc(fam, "Envelope", "Envelope_MC_err_mid.cfg", workers=8, timeout=3000, label="error values, mid")
         ctx.tlc_mc(fam, "Envelope", "Envelope_MC_err_big.cfg", workers=16, timeout=3000, heap="12g",
                    label="error values, big")
     # 2. plans out of the spec
